@@ -816,6 +816,54 @@ def check(tier: str, seed: int, t0: float, build: core.BuildStatus) -> int:
                 else:
                     oc.traces_validated_against_impl += 1
     extra["call_sites_generated_twice"] = twice
+    # (F) an injected METHOD called in the second of two consecutive Where steps (func_adl fuses them into one lambda with a fresh
+    # parameter): the method object is the element of the loop the call sits in - the innermost one - also when the same
+    # parameter name is bound further out
+    fused = 0
+    mmd = {"metadata_type": "add_cpp_function", "name": "fv_m", "include_files": [], "arguments": ["k"], "code": ["auto result = fv_get(obj_j) * k;"],
+           "return_type": "double", "method_object": "obj_j", "instance_object": "xAOD::Jet_v1"}
+    for be in BACKENDS:
+        coll = BACKENDS[be][0]
+        shapes = [f"ds.Select(lambda e: {coll}.Where(lambda j: j.pt() > 1.0).Where(lambda j: j.fv_m(2.0) < 9.0).Count())",
+                  f"ds.Select(lambda e: {coll}.Where(lambda a: a.pt() > 1.0).Where(lambda b: b.fv_m(2.0) < 9.0).Select(lambda c: c.fv_m(3.0)))",
+                  f"ds.Select(lambda e: {coll}.Select(lambda j: {coll}.Where(lambda t: t.pt() > j.pt()).Where(lambda j: j.fv_m(1.0) < 3.0).Count()))"]
+        for src in shapes:
+            try:
+                r = impl.translate(be, impl.query_ast(src, [mmd]))
+            except Exception as e:  # noqa: BLE001
+                r = ("error", type(e).__name__, str(e)[:200])
+            impl.reset_globals()
+            oc.evaluations += 1
+            fused += 1
+            rep = {"kind": "twice", "backend": be, "query": src, "metadata": [mmd]}
+            if r[0] != "ok":
+                oc.violations.append(core.Violation(key="c11:fused-where-refused", what=f"{be}: a valid query with an injected method in the second of two Where steps is refused: {r[1:]} - {src}", replay=rep))
+                continue
+            lines = [str(x).strip() for x in r[1]["slots"].get("query_code", []) if str(x).strip()]
+            bad = None
+            for i, ln in enumerate(lines):
+                m = re.match(r"auto result = fv_get\((\w+)\) \* ", ln)
+                if not m:
+                    continue
+                depth, var = 0, None
+                for back in range(i - 1, -1, -1):
+                    if lines[back] == "}":
+                        depth += 1
+                    elif lines[back] == "{":
+                        if depth:
+                            depth -= 1
+                        elif back > 0:
+                            f = re.match(r"for \(auto &&(\w+) : ", lines[back - 1])
+                            if f:
+                                var = f.group(1)
+                                break
+                if var is not None and m.group(1) != var:
+                    bad = f"the method object of {ln!r} is {m.group(1)}, the element of the loop it sits in is {var}"
+            if bad:
+                oc.violations.append(core.Violation(key="c11:wrong-receiver", what=f"{be}: {bad} - {src}", replay={**rep, "emitted": lines}))
+            else:
+                oc.traces_validated_against_impl += 1
+    extra["injected_method_in_fused_where"] = fused
 
     if model is not None:
         model.close()
